@@ -221,8 +221,16 @@ def fpToFP(a1, a2, a3=None):
     if isinstance(a1, RM) and isinstance(a2, FPV) and isinstance(a3, FSort):
         return FPV(a2.value, a3)
     if isinstance(a1, RM) and isinstance(a2, BVV) and isinstance(a3, FSort):
-        return FPV(float(a2.signed), a3)
+        return FPV(_int_to_float(a2.signed), a3)
     raise ClaripyOperationError("unknown types passed to fpToFP")
+
+
+def _int_to_float(v):
+    try:
+        return float(v)
+    except OverflowError:
+        # beyond the largest double: the conversion rounds to infinity
+        return float("inf") if v > 0 else float("-inf")
 
 
 def fpToFPUnsigned(_rm, thing, sort):
@@ -231,7 +239,7 @@ def fpToFPUnsigned(_rm, thing, sort):
     whose sort is `sort`.
     """
     # thing is a BVV
-    return FPV(float(thing.value), sort)
+    return FPV(_int_to_float(thing.value), sort)
 
 
 def fpToIEEEBV(fpv):
